@@ -782,7 +782,7 @@ theorem putIndices_of_resolve (f : RawIx × Axis → Except Err PosIx)
       (pix' = pix ∨ 0 ∈ outerShape pix) := by
   unfold putIndices
   simp only []
-  generalize hb : List.any (raw.zip axes) _ = b
+  generalize hb : List.any (arrayKeys axes raw) _ = b
   refine putOne_all_or f _ b hf ?_ ?_ ?_ ?_ _ pix h _ ?_
   · intro _ _; rfl
   · intro _ _; rfl
@@ -790,7 +790,7 @@ theorem putIndices_of_resolve (f : RawIx × Axis → Except Err PosIx)
   · intro _ _; rfl
   · intro hbt
     rw [hbt] at hb
-    refine anyEmpty_zero_mem f _ hf ?_ ?_ ?_ ?_ _ pix h hb
+    refine anyEmpty_zero_mem f _ hf ?_ ?_ ?_ ?_ _ pix h (C03P.arrayKeys_any_imp axes raw _ hb)
     · intro _ _; rfl
     · intro _ _; rfl
     · intro s e st ax ps hps
